@@ -878,7 +878,10 @@ class Model(CallsMixin, BuiltinsMixin):
             if base.dims is None:
                 return base.copy()
             # (src is kept by copy())
-            o = {'cols': 'rows', 'rows': 'cols'}.get(base.orth, base.orth)
+            # full reversal of the axes: an orthonormal-columns factor becomes
+            # an orthonormal-rows one, for matrices and for 3-axis cores
+            o = {'cols': 'rows', 'rows': 'cols', 'cols3': 'rows3',
+                 'rows3': 'cols3'}.get(base.orth, base.orth)
             lay = None
             if base.lay is not None:
                 lay = tuple(reversed(base.lay))
@@ -1134,7 +1137,7 @@ class Model(CallsMixin, BuiltinsMixin):
                 r.rel = ('rev', base.rel[1]) if isinstance(base.rel, tuple) \
                     and base.rel[0] == 'rev0' else ('rev', base)
         if not advanced:
-            if len(base.dims) == 2 and len(comps) == 1 and \
+            if len(base.dims) >= 2 and len(comps) == 1 and \
                     comps[0].k == 'int':
                 r.rel = ('row', base, comps[0])
             elif len(base.dims) == 2 and len(comps) == 2 and \
